@@ -125,7 +125,7 @@ def register(R, tier="quick"):
           requires=["minv(self)", "supports_quality(self.child)", ACTIVE],
           ensures=["score_at(self, pos(self)) <= result"], returns="real")
         if cls == "FilterMatcher":
-            C(W + ":FilterMatcher.skip_to_quality", label=W + ":FilterMatcher.skip_to_quality" + at, props=PROPS_Q + ["C07"],
+            C(W + ":FilterMatcher.skip_to_quality", label=W + ":FilterMatcher.skip_to_quality" + at, props=PROPS_Q + ["C07", "C01"],
               setup=mkw(cls, {"minquality": "real"}, **extra),
               requires=["minv(self)", "supports_quality(self.child)", ACTIVE, "minquality >= 0"], ensures=SKQ_POST,
               modifies=["self.child"], returns="int", inline_callees=[K + "skip_to_quality"],
